@@ -4,7 +4,7 @@
 //
 //verif:pkg internal/xds/server
 //verif:bound loop=64 steps=6000000 paths=600000
-//verif:outside the validation half lives in another package and is decided by C49a on protos; here the NetworkFilterChainMap is built by a harness builder that groups chains exactly as buildFilterChainMap does (destination prefix, source type, source prefix, source port). Listeners bound to a specific address ignore destination prefixes by design (gRFC A36) and are only checked for absence of panics. Chains: 3 chains from 108 combinations of {no prefix, 10.0.0.0/8, 10.1.0.0/16} x {any, same-or-loopback, external} x {no prefix, 192.168.0.0/16, 192.168.1.0/24} x {any port, 80}; IPv4 connections with all address bytes and the port symbolic; IPv6 is outside
+//verif:outside the validation half lives in another package and is decided by C49a on protos; here the NetworkFilterChainMap is built by a harness builder that groups chains exactly as buildFilterChainMap does (destination prefix, source type, source prefix, source port). Chains: 3 chains from 108 combinations of {no prefix, 10.0.0.0/8, 10.1.0.0/16} x {any, same-or-loopback, external} x {no prefix, 192.168.0.0/16, 192.168.1.0/24} x {any port, 80}; IPv4 connections with all address bytes and the port symbolic; IPv6 is outside
 package server
 
 import (
@@ -98,7 +98,68 @@ func verifH_C49_lookup() {
 	wildcard := verifBool("listener-on-wildcard-address")
 	fc, err := fcm.lookup(lookupParams{isUnspecifiedListener: wildcard, dstAddr: dst, srcAddr: src, srcPort: port})
 	verifAssert((fc != nil) != (err != nil), "lookup returns a chain or an error")
+	connType := 2
+	if src == dst || s[0] == 127 {
+		connType = 1
+	}
 	if !wildcard {
+		// a listener bound to a specific address: destination prefixes are not consulted (A36); the source type is
+		// decided per destination entry, the most specific level wins, then source prefix and port as usual
+		level := func(d int) int {
+			for _, c := range chains {
+				if c.dst == d && c.typ == connType {
+					return connType
+				}
+			}
+			return 0
+		}
+		bestLevel := 0
+		for _, c := range chains {
+			if l := level(c.dst); l > bestLevel {
+				bestLevel = l
+			}
+		}
+		var kept []verifChain
+		bestLen := -2
+		for _, c := range chains {
+			if level(c.dst) == bestLevel && c.typ == bestLevel && (c.src == 0 || c.srcP.Contains(src)) {
+				kept = append(kept, c)
+				if c.srcL > bestLen {
+					bestLen = c.srcL
+				}
+			}
+		}
+		groups := map[[2]int]bool{}
+		var last []verifChain
+		for _, c := range kept {
+			if c.srcL == bestLen {
+				groups[[2]int{c.dst, c.src}] = true
+				last = append(last, c)
+			}
+		}
+		if len(groups) > 1 {
+			verifAssert(err != nil, "chains that tie for a connection are reported, not chosen arbitrarily")
+			verifCover("specific-listener-tie")
+			return
+		}
+		w := ""
+		for _, c := range last {
+			if c.port == port {
+				w = c.name
+			}
+		}
+		if w == "" {
+			for _, c := range last {
+				if c.port == 0 {
+					w = c.name
+				}
+			}
+		}
+		if w == "" {
+			verifAssert(hasDefault && err == nil && fc.routeConfigName == "default" || !hasDefault && err != nil, "specific listener: default chain only when nothing matches")
+		} else {
+			verifAssert(err == nil && fc.routeConfigName == w, "specific listener: the most specific source type, then source prefix, then source port decide")
+		}
 		verifCover("specific-listener")
 		return
 	}
@@ -122,10 +183,6 @@ func verifH_C49_lookup() {
 		}
 	}
 	keep(func(c verifChain) bool { return c.dstL == best })
-	connType := 2
-	if src == dst || s[0] == 127 {
-		connType = 1
-	}
 	specific := false
 	for _, c := range cand {
 		if c.typ == connType {
